@@ -20,6 +20,8 @@ const (
 	Silent      Behaviour = "silent"       // reads the request, never answers
 	AnswersErr  Behaviour = "krb-error"    // answers a KRB-ERROR (Code)
 	TooBig      Behaviour = "too-big"      // answers KRB_ERR_RESPONSE_TOO_BIG (meaningful on UDP)
+	CutsBody    Behaviour = "cuts-body"    // TCP: sends the length header and half of the reply, then closes
+	CutsHeader  Behaviour = "cuts-header"  // TCP: sends two of the four length octets, then closes
 )
 
 // Endpoint is a loopback listener with a behaviour.
@@ -161,6 +163,12 @@ func (e *Endpoint) serveTCP(l net.Listener) {
 			out := make([]byte, 4+len(rep))
 			binary.BigEndian.PutUint32(out, uint32(len(rep)))
 			copy(out[4:], rep)
+			switch e.Beh {
+			case CutsBody:
+				out = out[:4+len(rep)/2]
+			case CutsHeader:
+				out = out[:2]
+			}
 			conn.Write(out)
 		}(conn)
 	}
